@@ -5,7 +5,7 @@ Driver handler for the `err` model (C07).
 
 `scen <cause> <pos> <refKind> <qual> <dbSet> <schemaSet>` → impl=<outcome>|<changed>	spec=<outcome>|<changed>	finding=<key|->
 `ops <dbSet> <schemaSet> <vars ,-sep> <op ;-sep>` with
-   op := o | c | d:<call> (checked description) | x:<undefinedVar>:<parseError>:<var>:<call ,-sep>      var := - | s.NAME | u.NAME
+   op := o | c | d:<call> (checked description) | u:<calls> (execute on another cursor: outcome, this cursor's sqlstate untouched) | x:<undefinedVar>:<parseError>:<var>:<call ,-sep>      var := - | s.NAME | u.NAME
    call := <noDb><noSchema>.<sqlcode>.<ctx>.<followup codes +-sep or ->   ctx := - | d (USE DATABASE X) | s (USE SCHEMA Y) | q (USE SCHEMA X.Y) | k (DROP SCHEMA <current>)
    sqlcode := 0 accept | 1 binder | 2 catalog | 3 txNoActive | 4 txOther | 5 parser | 6 conversion | 7 constraint | 8 connection
  → impl=<per op: outcome|sqlstate|changed|finding ;-sep>
@@ -86,6 +86,7 @@ inductive DrvOp
   | exec (usesVar : Option String) (s : Stmt Nat)    -- `usesVar`: the text mentions `$NAME`
   | other
   | close
+  | connUse (s : Stmt Nat)                            -- an execute on ANOTHER cursor of the connection (conn.commit(), execute_string, write_pandas …)
   | descr (c : Call Nat)                              -- checked `cursor.description`: the DESCRIBE call and DuckDB's reaction to it
 
 def parseOp (s : String) : Option DrvOp :=
@@ -93,6 +94,9 @@ def parseOp (s : String) : Option DrvOp :=
   else if s == "c" then some .close
   else match s.splitOn ":" with
     | ["d", call] => (parseCall call).map .descr
+    | ["u", calls] => do
+      let cs ← (calls.splitOn ",").mapM parseCall
+      pure (.connUse { calls := cs })
     | ["x", u, p, v, calls] => do
       let vu ← parseVar v
       let cs ← (if calls == "-" then some [] else (calls.splitOn ",").mapM parseCall)
@@ -111,6 +115,9 @@ def traceOps (w : World Nat) (st : Option String) : List DrvOp → List String
     let r := execute engQ w s
     let changed := r.world.duck != w.duck || r.world.sess != w.sess
     s!"{encOutcome r.outcome}|{r.sqlstate.getD "-"}|{encBool changed}|{(stmtFinding w.sess s).getD "-"}" :: traceOps r.world r.sqlstate ops
+  | .connUse s :: ops =>
+    let r := execute engQ w s
+    s!"{encOutcome r.outcome}|{st.getD "-"}|{encBool (r.world.duck != w.duck)}|-" :: traceOps r.world st ops
   | .descr c :: ops => s!"{encOutcome (descriptionOutcome engQ w c)}|{st.getD "-"}|0|-" :: traceOps w st ops
   | .other :: ops => s!"-|{st.getD "-"}|0|-" :: traceOps w st ops
   | .close :: ops => s!"-|{st.getD "-"}|0|-" :: traceOps { w with closed := true } st ops
